@@ -1,8 +1,8 @@
 (** C04 - property theorems only. Each is closed by [exact] of a lemma proved
     in proofs/LBProofs.v; nothing else lives here. *)
 From EG.lib Require Import Base.
-From EG.model Require Import LB.
-From EG.proofs Require Import LBProofs.
+From EG.model Require Import LB LBCheck.
+From EG.proofs Require Import LBProofs LBCheckProofs.
 From Coq Require Import Permutation.
 Open Scope Z_scope.
 
@@ -111,6 +111,29 @@ Theorem C04_replace_choice_in_loaded_list : forall q p l0 es os fin j b o,
                exists s, nth_error l (Z.to_nat i) = Some s /\ In s l).
 Proof. exact replace_choice_in_loaded_list. Qed.
 Print Assumptions C04_replace_choice_in_loaded_list.
+
+(** ... and that list is the one that was current when the selecting goroutine last loaded the
+    pool's balancer: its index is the number of replacements that preceded that load *)
+Theorem C04_replace_list_current_at_load : forall q p l0 es os fin j b o,
+  crun q p (cinit l0) es = (os, fin) ->
+  nth_error os j = Some (Some (b, o)) ->
+  exists g d k m,
+    nth_error es j = Some (CChoose g d k) /\
+    (m < j)%nat /\ nth_error es m = Some (CLoad g) /\
+    (forall m', (m < m' < j)%nat -> nth_error es m' <> Some (CLoad g)) /\
+    b = List.length (replaced (firstn m es)).
+Proof. exact replace_choice_current_at_load. Qed.
+Print Assumptions C04_replace_list_current_at_load.
+
+(** the decidable checkers applied to the implementation's observables raise no false alarm:
+    the index sequence of any k contiguous tickets passes [balanced] (sequential groups) and the
+    closed-form counts pass [balanced_counts] (concurrent group) *)
+Theorem C04_checker_accepts_balanced : forall n c0 k,
+  0 < n ->
+  balanced n (Z.of_nat k) (map (rr n) (tickets c0 k)) = true /\
+  balanced_counts n (Z.of_nat k) (map (rr_count n c0 (Z.of_nat k)) (zseq 0 (Z.to_nat n))) = true.
+Proof. intros n c0 k Hn. split; [exact (tickets_balanced n c0 k Hn)|apply closed_form_balanced; [exact Hn|apply Nat2Z.is_nonneg]]. Qed.
+Print Assumptions C04_checker_accepts_balanced.
 
 (** non-vacuity: concrete non-trivial instances *)
 Example C04_nonvacuous_rr :
